@@ -5,6 +5,7 @@ real impls on explicit argument pairs / triples) vs vm_compute of `rows (denote 
 python specification oracle: the mathematical order / join / meet of every type AND the laws of the property
 checked directly on the implementation's answers (commutativity, associativity, idempotence, absorption,
 order agreement, flag exactness, in-place == by-value, Dual / Reverse swapping, top / bottom extremal)."""
+import functools
 import itertools
 import json
 import os
@@ -25,8 +26,9 @@ INTS = {"i8": (-2 ** 7, 2 ** 7 - 1), "u8": (0, 2 ** 8 - 1), "i16": (-2 ** 15, 2 
 def I(n): return ("int", n)
 
 
-B, U, SET = ("bool",), ("unit",), ("set",)
+B, U = ("bool",), ("unit",)
 i32 = I("i32")
+SET = ("set", i32)
 
 
 def Opt(t): return ("opt", t)
@@ -39,7 +41,8 @@ def Ord(t): return ("ord", t)
 def Tup(*ts): return ("tup", tuple(ts))
 def Prod(*ts): return ("prod", tuple(ts))
 def Arr(n, t): return ("arr", n, t)
-def BSet(n): return ("bset", n)
+def BSet(n, t=i32): return ("bset", n, t)
+def Set(t): return ("set", t)
 def CP(t): return ("cp", t)
 
 
@@ -61,6 +64,8 @@ TYPES = dict([(n, I(n)) for n in INTS] + [
     ("arr0", Arr(0, i32)), ("arr1", Arr(1, B)), ("arr2", Arr(2, i32)), ("arr3", Arr(3, Opt(B))), ("arr4", Arr(4, B)),
     ("arr2set", Arr(2, SET)), ("arr2prod", Arr(2, Prod(B, i32))),
     ("set", SET), ("bset0", BSet(0)), ("bset1", BSet(1)), ("bset2", BSet(2)), ("bset3", BSet(3)),
+    ("set_tup", Set(Tup(i32, B))), ("set_opt", Set(Opt(i32))), ("set_rev", Set(Rev(i32))), ("set_dual_tup", Set(Tup(Dual(i32), B))),
+    ("prod_set_tup", Prod(Set(Tup(B, B)), B)),
     ("cp_i32", CP(i32)), ("cp_bool", CP(B)), ("cp_set", CP(SET)), ("cp_cp", CP(CP(B))), ("cp_rev", Rev(CP(i32))),
 ])
 WRAP = {"rc": "alloc::rc::Rc", "arc": "alloc::sync::Arc", "box": "alloc::boxed::Box", "rev": "core::cmp::Reverse",
@@ -86,9 +91,9 @@ def rust_name(t):
     if k == "arr":
         return "ascent_base::lattice::product::Product<[%s; %d]>" % (rust_name(t[2]), t[1])
     if k == "set":
-        return "ascent_base::lattice::set::Set<i32>"
+        return "ascent_base::lattice::set::Set<%s>" % rust_name(t[1])
     if k == "bset":
-        return "ascent_base::lattice::bounded_set::BoundedSet<%d, i32>" % t[1]
+        return "ascent_base::lattice::bounded_set::BoundedSet<%d, %s>" % (t[1], rust_name(t[2]))
     raise ValueError(t)
 
 
@@ -112,9 +117,9 @@ def enc(t, v):
     if k == "arr":
         return [x for vi in v for x in enc(t[2], vi)]
     if k == "set":
-        return [str(len(v))] + [str(x) for x in v]
+        return [str(len(v))] + [y for x in v for y in enc(t[1], x)]
     if k == "bset":
-        return ["T"] if v == "T" else ["B", str(len(v[1]))] + [str(x) for x in v[1]]
+        return ["T"] if v == "T" else ["B"] + enc(("set", t[2]), v[1])
     if k == "cp":
         return [v] if v in ("bot", "top") else ["c"] + enc(t[1], v[1])
     raise ValueError(t)
@@ -146,12 +151,17 @@ def dec(t, toks, i=0):
         return tuple(out), i
     if k == "set":
         n = int(toks[i])
-        return tuple(int(x) for x in toks[i + 1:i + 1 + n]), i + 1 + n
+        i += 1
+        out = []
+        for _ in range(n):
+            v, i = dec(t[1], toks, i)
+            out.append(v)
+        return canon_set(t[1], out), i          # canonicalised: the order of the printout is not compared
     if k == "bset":
         if toks[i] == "T":
             return "T", i + 1
         assert toks[i] == "B"
-        s, i = dec(SET, toks, i + 1)
+        s, i = dec(("set", t[2]), toks, i + 1)
         return ("B", s), i
     if k == "cp":
         if toks[i] in ("bot", "top"):
@@ -160,6 +170,11 @@ def dec(t, toks, i=0):
         v, i = dec(t[1], toks, i + 1)
         return ("c", v), i
     raise ValueError(t)
+
+
+def canon_set(te, xs):
+    """a set as the tuple of its elements in increasing order of the element type"""
+    return tuple(sorted(set(xs), key=functools.cmp_to_key(lambda x, y: 0 if x == y else (-1 if s_le(te, x, y) else 1))))
 
 
 def dec_all(t, s):
@@ -175,8 +190,10 @@ def coq_ty(t):
     if k == "int":
         lo, hi = INTS[t[1]]
         return "(LInt (%d) (%d))" % (lo, hi)
-    if k in ("bool", "unit", "set"):
-        return {"bool": "LBool", "unit": "LUnit", "set": "LSet"}[k]
+    if k in ("bool", "unit"):
+        return {"bool": "LBool", "unit": "LUnit"}[k]
+    if k == "set":
+        return "(LSet %s)" % coq_ty(t[1])
     if k in ("opt", "rc", "arc", "box", "rev", "dual", "ord", "cp"):
         return "(%s %s)" % ({"opt": "LOption", "rc": "LRc", "arc": "LArc", "box": "LBox", "rev": "LReverse",
                              "dual": "LDual", "ord": "LOrd", "cp": "LCP"}[k], coq_ty(t[1]))
@@ -189,7 +206,7 @@ def coq_ty(t):
     if k == "arr":
         return "(LProdArr %d %s)" % (t[1], coq_ty(t[2]))
     if k == "bset":
-        return "(LBSet %d)" % t[1]
+        return "(LBSet %d %s)" % (t[1], coq_ty(t[2]))
     raise ValueError(t)
 
 
@@ -213,9 +230,9 @@ def coq_val(t, v):
     if k == "arr":
         return "[" + "; ".join(coq_val(t[2], x) for x in v) + "]"
     if k == "set":
-        return "[" + "; ".join("(%d)" % x for x in v) + "]"
+        return "[" + "; ".join(coq_val(t[1], x) for x in v) + "]"
     if k == "bset":
-        return "None" if v == "T" else "(Some %s)" % coq_val(SET, v[1])
+        return "None" if v == "T" else "(Some %s)" % coq_val(("set", t[2]), v[1])
     if k == "cp":
         return {"bot": "CBot", "top": "CTop"}[v] if v in ("bot", "top") else "(CConst %s)" % coq_val(t[1], v[1])
     raise ValueError(t)
@@ -257,12 +274,12 @@ def from_coq(t, p):
         return tuple(from_coq(t[2], x) for x in p)
     if k == "set":
         assert isinstance(p, list), p
-        return tuple(p)          # NOT sorted here: the model must produce the canonical order itself
+        return tuple(from_coq(t[1], x) for x in p)          # NOT sorted here: the model must produce the canonical order itself
     if k == "bset":
         if p == "None":
             return "T"
         assert p[0] == "Some", p
-        return ("B", tuple(p[1]))
+        return ("B", from_coq(("set", t[2]), p[1]))
     if k == "cp":
         if p in ("CBot", "CTop"):
             return {"CBot": "bot", "CTop": "top"}[p]
@@ -344,17 +361,17 @@ def s_join(t, a, b, meet=False):
     if k == "arr":
         return tuple(s_join(t[2], x, y, meet) for x, y in zip(a, b))
     if k == "set":
-        return tuple(sorted(set(a) & set(b) if meet else set(a) | set(b)))
+        return canon_set(t[1], set(a) & set(b) if meet else set(a) | set(b))
     if k == "bset":
         if meet:
             if a == "T":
                 return b
             if b == "T":
                 return a
-            return ("B", tuple(sorted(set(a[1]) & set(b[1]))))
+            return ("B", canon_set(t[2], set(a[1]) & set(b[1])))
         if a == "T" or b == "T":
             return "T"
-        u = tuple(sorted(set(a[1]) | set(b[1])))
+        u = canon_set(t[2], set(a[1]) | set(b[1]))
         return "T" if len(u) > t[1] else ("B", u)
     if k == "cp":
         if a == b:
@@ -456,12 +473,19 @@ def carrier(t, rng, cap, depth=0):
                 seen.add(v)
                 out.append(v)
         return out
-    if k == "set":
-        u = list(range((4 if depth == 0 else 3) if cap >= 100 else (3 if depth == 0 else 2)))
-        return [tuple(s) for n in range(len(u) + 1) for s in itertools.combinations(u, n)]
-    if k == "bset":
-        u = list(range((4 if depth == 0 else 3) if cap >= 100 else (3 if depth == 0 else 2)))
-        return [("B", tuple(s)) for n in range(min(len(u), t[1]) + 1) for s in itertools.combinations(u, n)] + ["T"]
+    if k in ("set", "bset"):
+        te = t[1] if k == "set" else t[2]
+        nu = (4 if depth == 0 else 3) if cap >= 100 else (3 if depth == 0 else 2)
+        if te[0] == "int":
+            u = list(range(nu))
+        else:                                   # nu elements spread over the element type's carrier
+            ev = carrier(te, rng, cap, depth + 1)
+            u = [ev[(i * (len(ev) - 1)) // max(1, nu - 1)] for i in range(min(nu, len(ev)))]
+            u = list(dict.fromkeys(u))
+        subsets = [canon_set(te, s) for n in range(len(u) + 1) for s in itertools.combinations(u, n)]
+        if k == "set":
+            return subsets
+        return [("B", s) for s in subsets if len(s) <= t[1]] + ["T"]
     if k == "cp":
         return ["bot"] + [("c", v) for v in carrier(t[1], rng, cap - 2, depth)] + ["top"]
     raise ValueError(t)
@@ -757,5 +781,5 @@ def tie(tier, seed, replay):
                               "hand-written Gallina mirror Lattice/LatModel.v of ascent_base/src/lattice*.rs (tied by these runs, not verified)",
                               "Rust std: BTreeSet set semantics, derived PartialEq / PartialOrd / Ord of Option and tuples, Ord::min / Ord::max, Rc / Arc make_mut + try_unwrap ownership glue"],
                 assumptions=["integers are modelled as Z restricted to the type's range (no lattice operation performs arithmetic)",
-                             "Set<T> / BoundedSet<N, T> are modelled for T = integers (canonical sorted lists of Z)",
+                             "Set<T> / BoundedSet<N, T>: theorems for every element type of the syntax that implements Ord (canonical sorted lists); the tie exercises Set over i32, tuples, Option, Reverse, Dual and BoundedSet over i32 (its private field is read through Debug)",
                              "tuple / Product arities: theorems cover every arity >= 1; the crate ships 1..11; the tie exercises 1, 2, 3, 11"])
